@@ -21,9 +21,64 @@ def is_modes(c: str) -> bool:
     return c.startswith("Modes")
 
 
+def key_independence(ctx: Ctx, rep: Report, only: str | None = None):
+    """"... from the same per-environment keys": the N streams of one vmapped collection must draw from N different keys.  A
+    stream that is a valid single-environment behaviour but a *copy* of its neighbour (one key broadcast to all environments)
+    is accepted by the single-environment trace specification, so this is checked separately: a finite MDP with three
+    equiprobable initial states under TimeLimit(1) redraws its state at every step; two streams of 12 such draws coincide
+    with probability 3^-12 when their keys differ."""
+    import random
+    from .. import drive_offpolicy as dof
+    from .. import drive_onpolicy as dop
+    from .. import tracecheck
+    from ..core import Violation
+    rng = random.Random(90210 + ctx.seed)
+    cache = tb.EnvCache()
+    cases, meta = [], []
+    for algo in ("PPO", "A2C", "DQN", "SAC"):
+        if only not in (None, algo):
+            continue
+        base = tb.gen_mdp(rng, "box" if algo == "SAC" else "disc", "disc", nS=4)
+        base["Init"] = [1, 2, 3]
+        base["Obs"] = [0, 1, 2, 3, 5]
+        cfg = tb.gen_ac_policy(rng, tb.with_stack(base, [tb.wrec("TimeLimit", n=1)]))
+        seed = rng.randrange(2 ** 31)
+        segs = {}
+        if algo in ("PPO", "A2C"):
+            cfg.update(g2=1, l2=1, H=12, an=2)
+            for tr in dop.record_onpolicy(cache, cfg, algo, 3, 2, seed):
+                segs.setdefault(("iteration", tr["meta"]["iter"]), {})[tr["meta"]["env"]] = [r["obs"] for r in tr["rows"]]
+        else:
+            cfg.update(bufsize=120, lstarts=12, nsteps=12, N=3, an=2)
+            for tr in dof.record_offpolicy(cache, cfg, algo, 1, seed):
+                k, cur = 0, []
+                for ev in tr["events"]:
+                    if ev["ev"] == "snap":
+                        segs.setdefault(("warm-up" if k == 0 else "iteration", k), {})[tr["meta"]["env"]] = cur
+                        k, cur = k + 1, []
+                    else:
+                        cur.append(ev["obs"])
+        atoms = {}
+        for (phase, k), by_env in sorted(segs.items()):
+            seqs = [tuple(v) for _, v in sorted(by_env.items())]
+            name = "WarmUpStreamsOfParallelEnvironmentsAreNotCopies" if phase == "warm-up" else "RolloutStreamsOfParallelEnvironmentsAreNotCopies"
+            ok = len(seqs) == 3 and all(len(q) >= 10 for q in seqs) and len(set(seqs)) == 3
+            atoms[name] = atoms.get(name, True) and ok
+        cases.append({"atoms": atoms})
+        meta.append({"algo": algo, "seed": seed, "segments": {f"{p}{k}": {str(e): v for e, v in b.items()} for (p, k), b in segs.items()}})
+    v = tracecheck.validate(ctx, "trace/Trace_Atoms.tla", cases, "c12_keys")
+    rep.traces += len(cases)
+    rep.parts["key_independence_of_parallel_streams"] = {"runs": [m["algo"] for m in meta], "accepted": len(v.accepted), "rejected": len(v.rejected)}
+    for i, (l, clauses) in sorted(v.rejected.items()):
+        rep.violations.append(Violation(f"C12:{meta[i]['algo']}:" + "+".join(clauses),
+                                        f"{meta[i]['algo']} with num_envs = 3: environment streams are copies of each other ({clauses}): "
+                                        f"{ {k: x for k, x in list(meta[i]['segments'].items())[:2]} }", "keys", {"algo": meta[i]["algo"]}))
+
+
 def run(ctx: Ctx) -> Report:
     rep = Report()
     ops.run_mc(ctx, rep)
+    key_independence(ctx, rep)
     # (b) on-policy, N in {2, 3}
     templates = [t for t in ops.gen_templates(ctx, ctx.pick(12, 60)) if t["N"] > 1]
     traces, cases = ops.record(ctx, templates, ctx.pick(30, 100))
@@ -59,6 +114,10 @@ def run(ctx: Ctx) -> Report:
 
 
 def replay(ctx: Ctx, driver: str, case: dict) -> Report:
+    if driver == "keys":
+        rep = Report()
+        key_independence(ctx, rep, only=case["algo"])
+        return rep
     if driver == "onpolicy":
         return ops.replay(ctx, "C12", case)
     if driver == "offpolicy":
